@@ -241,6 +241,58 @@ func TestC14(t *testing.T) {
 	}
 	rec(nil, 0)
 
+	// ---- read-1b: number spellings ----
+	// every spelling of the number field in an otherwise canonical body of
+	// each kind: an accepted text must re-parse from its canonical form to the
+	// same entry; and the canonical text of an entry with a large number
+	// (2^63, 2^64-1: valid values of the unsigned field) must parse back to it.
+	if evid.Mine(0) {
+		numberBodies := map[string]string{
+			"RSL Reference Entry":   "ref: refs/heads/main\ntargetID: " + c14H1,
+			"RSL Annotation Entry":  "entryID: " + c14H1 + "\nskip: true",
+			"RSL Propagation Entry": "ref: refs/heads/main\ntargetID: " + c14H1 + "\nupstreamRepository: https://h/x\nupstreamEntryID: " + c14H2,
+		}
+		spellings := []string{"0", "1", "01", "+1", "-1", "-0", " 1", "1 ", "9223372036854775807", "9223372036854775808", "-9223372036854775808", "18446744073709551615", "18446744073709551616", "1e3", "0x1", "1.0", "１", ""}
+		for header, body := range numberBodies {
+			for _, sp := range spellings {
+				text := header + "\n\n" + body + "\nnumber: " + sp
+				col.Inc("evaluations")
+				col.Inc("number_spellings")
+				if sig, what := c14CheckText(text, id, col); sig != "" {
+					col.Violation(sig+":number-spelling", what, c14Replay{Text: text})
+				}
+			}
+			for _, n := range []uint64{1 << 63, 1<<64 - 1, 1<<63 - 1} {
+				base, err := rsl.ParseEntryText(id, header+"\n\n"+body+"\nnumber: 7")
+				if err != nil {
+					col.Fail("number sweep: canonical body rejected: " + err.Error())
+					return
+				}
+				switch e := base.(type) {
+				case *rsl.ReferenceEntry:
+					e.Number = n
+				case *rsl.AnnotationEntry:
+					e.Number = n
+				case *rsl.PropagationEntry:
+					e.Number = n
+				}
+				canon, err := rsl.CanonicalTextForVerif(base)
+				col.Inc("evaluations")
+				col.Inc("number_roundtrips")
+				if err != nil {
+					col.Violation("C14:canonical-text-error:large-number", fmt.Sprintf("entry with number %d cannot be serialised: %v", n, err), c14Replay{Text: header})
+					continue
+				}
+				back, err := rsl.ParseEntryText(id, canon)
+				if err != nil {
+					col.Violation("C14:written-entry-rejected-on-read:large-number", fmt.Sprintf("the text written for an entry with number %d (%q) is rejected when read back: %v", n, canon, err), c14Replay{Text: canon})
+				} else if !reflect.DeepEqual(base, back) {
+					col.Violation("C14:write-read-differs:large-number", fmt.Sprintf("entry with number %d reads back as %+v", n, back), c14Replay{Text: canon})
+				}
+			}
+		}
+	}
+
 	// ---- read-2: per-kind bodies ----
 	common := []string{"number: 1", "number: 2", "number: x", "number: 1\r", "unknown: v", "nocolon", ""}
 	bodies := map[string][]string{
